@@ -990,7 +990,7 @@ class RotateRight(Logic):
             
         last = a
         for i in range(wb):
-            shifted = self.wire('shifted{}'.format(i), r.getWidth())
+            shifted = self.wire('shifted{}'.format(i), a.getWidth())
             RotateRightConstant(self, 'shifted{}'.format(i), last, 1<<i, shifted)
             
             doShift = self.wire(f'doShift{i}')
@@ -1037,7 +1037,7 @@ class RotateLeft(Logic):
             
         last = a
         for i in range(wb):
-            shifted = self.wire('shifted{}'.format(i), r.getWidth())
+            shifted = self.wire('shifted{}'.format(i), a.getWidth())
             RotateLeftConstant(self, 'shifted{}'.format(i), last, 1<<i, shifted)
             
             doShift = self.wire(f'doShift{i}')
